@@ -1060,3 +1060,7 @@ def hash_single_exit(E, q, meth, o, me, f, vals, want, params, ign, cfi, plabel,
         t = _same_value(E, o.val, s, miss, ms) if miss is not None else False
         E.oblige("%s/ignore_exc:no-server-or-backoff-returns-exactly-the-miss-value%s" % (hid("miss", q), E.case_suffix), s,
                  T(t) if isinstance(t, bool) else t, func=q, meta={"method": meth, "returned": repr(o.val), "miss": repr(miss)})
+
+
+from pyvc.sym import guard_units as _guard_units
+_guard_units(globals())
